@@ -23,6 +23,9 @@ func TestC10(t *testing.T) {
 	check(t, 0, budget(6000, 80000), func(rt *rapid.T) {
 		c, rs := genRSCase(rt, cfg)
 		maybeFailingConditions(rt, c, rs)
+		if maybeUsedBefore(rt, c, rs, cfg.Rules.State) {
+			c.PriorMaxCycle = 30 // let the earlier call reach its own Retract / Complete
+		}
 		c.TruthAll = true
 		rep, v := runValidated(rt, c, "C10")
 		nt := rep.RetractedTrueLater || (rep.Completed && rep.CompleteNotLast)
